@@ -43,6 +43,29 @@ def coqchk() -> int:
     return rc
 
 
+def _leave(rc: int) -> None:
+    """End the check now: run the registered exit handlers (shared Flight server, temp files) under a time limit, kill whatever
+    child processes are still alive (non-daemonic workers left behind by the implementation would otherwise keep the
+    interpreter - and every pipe it holds - open for ever), then exit without waiting for stray threads."""
+    import atexit
+    import multiprocessing
+    import threading
+    t = threading.Thread(target=atexit._run_exitfuncs, daemon=True)
+    t.start()
+    t.join(20)
+    try:
+        for p in multiprocessing.active_children():
+            try:
+                p.kill()
+            except Exception:  # noqa: BLE001
+                pass
+    except Exception:  # noqa: BLE001
+        pass
+    sys.stdout.flush()
+    sys.stderr.flush()
+    os._exit(rc)
+
+
 def main() -> int:
     ap = argparse.ArgumentParser()
     ap.add_argument("prop", nargs="?")
@@ -63,6 +86,23 @@ def main() -> int:
     if a.replay:
         return mod.replay(a.replay)
     rep = vlib.Reporter(prop, a.tier, seed, level=getattr(mod, "LEVEL", "proof"))
+    # fail closed on a check that does not end (e.g. a run of the implementation that blocks in a place no per-run watchdog
+    # covers, or worker processes that keep the interpreter from exiting): report and leave, never hang
+    import threading
+    limit = int(os.environ.get("VERIF_CHECK_TIMEOUT_S", "0") or 0) or (1500 if a.tier == "quick" else 4 * 3600)
+    done = threading.Event()
+
+    def watchdog() -> None:
+        if not done.wait(limit):
+            try:
+                rep.finding("check-timeout", f"the check did not end within {limit} s (a call into the implementation blocks or left "
+                            "processes behind that keep the check from finishing)", {"limit_s": limit}, found_input=False)
+                rc = rep.finish()
+            except Exception:  # noqa: BLE001
+                rc = 1
+                print(f"VIOLATION property={prop} replay=/verif/replays/{prop}/timeout no-failing-input-found")
+            _leave(rc or 1)
+    threading.Thread(target=watchdog, daemon=True).start()
     try:
         mod.run(rep, a.tier, seed)
     except Exception:
@@ -70,7 +110,10 @@ def main() -> int:
         print(tb)
         rep.finding("check-crashed", "the check itself failed: " + tb.splitlines()[-1], {"traceback": tb},
                     found_input=False)
-    return rep.finish()
+    rc = rep.finish()
+    done.set()
+    _leave(rc)
+    return rc
 
 
 if __name__ == "__main__":
